@@ -68,3 +68,72 @@ pub fn tweedie_gradient_hook(
     };
     problem.gradient(p).map_err(|e| e.to_string())
 }
+
+// ---------------------------------------------------------------------------------------------
+// scalar-generic variants (f32 instantiation)
+use crate::float::Float;
+
+pub fn in_range_hook_g<F: Float>(power: F, y: ArrayView1<F>) -> Result<bool, String> {
+    let d = TweedieDistribution::new(power).map_err(|e| e.to_string())?;
+    Ok(d.in_range(&y))
+}
+
+pub fn deviance_hook_g<F: Float>(
+    power: F,
+    y: ArrayView1<F>,
+    ypred: ArrayView1<F>,
+) -> Result<F, String> {
+    let d = TweedieDistribution::new(power).map_err(|e| e.to_string())?;
+    d.deviance(y, ypred).map_err(|e| e.to_string())
+}
+
+pub fn deviance_derivative_hook_g<F: Float>(
+    power: F,
+    y: ArrayView1<F>,
+    ypred: ArrayView1<F>,
+) -> Result<Array1<F>, String> {
+    let d = TweedieDistribution::new(power).map_err(|e| e.to_string())?;
+    Ok(d.deviance_derivative(y, ypred))
+}
+
+pub fn tweedie_cost_hook_g<F: Float>(
+    x: &Array2<F>,
+    y: &Array1<F>,
+    fit_intercept: bool,
+    link: Link,
+    power: F,
+    alpha: F,
+    p: &Array1<F>,
+) -> Result<F, String> {
+    let dist = TweedieDistribution::new(power).map_err(|e| e.to_string())?;
+    let problem = TweedieProblem {
+        x: x.view(),
+        y: y.view(),
+        fit_intercept,
+        link: &link,
+        dist,
+        alpha,
+    };
+    problem.cost(p).map_err(|e| e.to_string())
+}
+
+pub fn tweedie_gradient_hook_g<F: Float>(
+    x: &Array2<F>,
+    y: &Array1<F>,
+    fit_intercept: bool,
+    link: Link,
+    power: F,
+    alpha: F,
+    p: &Array1<F>,
+) -> Result<Array1<F>, String> {
+    let dist = TweedieDistribution::new(power).map_err(|e| e.to_string())?;
+    let problem = TweedieProblem {
+        x: x.view(),
+        y: y.view(),
+        fit_intercept,
+        link: &link,
+        dist,
+        alpha,
+    };
+    problem.gradient(p).map_err(|e| e.to_string())
+}
